@@ -33,6 +33,9 @@ struct LoopSpec {
     /// ghost text inserted at the start of the loop body (proof blocks / documented assumptions only)
     #[serde(default)]
     body_prologue: String,
+    /// ghost text inserted right after the loop (R13 loops only; proof blocks only)
+    #[serde(default)]
+    after: String,
 }
 
 #[derive(Deserialize, Default, Clone)]
@@ -455,6 +458,12 @@ impl<'a> Rw<'a> {
     /// R13: `X.iter().enumerate().map(F).fold(INIT, G)` -> the index loop these adaptors are defined as
     /// (`acc = G(acc, F((i, &X[i])))` for i in 0..X.len()); F and G stay verbatim closures.
     fn try_iter_chain(&mut self, mc: &syn::ExprMethodCall) -> bool {
+        if mc.method == "count" && mc.args.is_empty() {
+            return self.try_filter_count(mc);
+        }
+        if mc.method == "filter" && mc.args.len() == 1 {
+            return self.try_filter_collect(mc);
+        }
         if mc.method != "fold" || mc.args.len() != 2 {
             return false;
         }
@@ -483,13 +492,79 @@ impl<'a> Rw<'a> {
         self.replace_range(c1e, is_, "; let mut __acc = ".to_string(), "R13-iter-chain");
         self.replace_range(ie, c2s, "; let __g = ".to_string(), "R13-iter-chain");
         self.replace_range(c2e, end, format!(
-            "; let mut __i: usize = 0; while __i < __it.len(){} decreases {}, {{ {} __acc = __g(__acc, __f((__i, &__it[__i]))); __i += 1; }} __acc }}",
-            inv, dec, ls.body_prologue), "R13-iter-chain");
+            "; let mut __i: usize = 0; while __i < __it.len(){} decreases {}, {{ {} __acc = __g(__acc, __f((__i, &__it[__i]))); __i += 1; }} {} __acc }}",
+            inv, dec, ls.body_prologue, ls.after), "R13-iter-chain");
         // closures and the operands are visited for the other rules
         self.visit_expr(x);
         self.visit_expr(&map.args[0]);
         self.visit_expr(&mc.args[0]);
         self.visit_expr(&mc.args[1]);
+        true
+    }
+
+    /// R13: `X.iter().filter(P).count()` -> `n = 0; for i in 0..X.len() { if P(&&X[i]) { n += 1 } }`; P stays a verbatim closure
+    fn try_filter_count(&mut self, mc: &syn::ExprMethodCall) -> bool {
+        let fl = match &*mc.receiver { syn::Expr::MethodCall(m) if m.method == "filter" && m.args.len() == 1 => m, _ => return false };
+        let it = match &*fl.receiver { syn::Expr::MethodCall(m) if m.method == "iter" && m.args.is_empty() => m, _ => return false };
+        let k = self.iter_chain_idx;
+        self.iter_chain_idx += 1;
+        let ls = match self.spec.iter_loops.get(&k.to_string()).cloned() {
+            Some(l) => l,
+            None => return false,
+        };
+        let x = &*it.receiver;
+        let (xs, xe) = br(x.span());
+        let (ps, pe) = br(fl.args[0].span());
+        let (_, end) = br(mc.span());
+        let mut inv = String::new();
+        if !ls.invariant.is_empty() {
+            inv.push_str(&format!(" invariant {},", ls.invariant.join(", ")));
+        }
+        let dec = if ls.decreases.is_empty() { "__it.len() - __i".to_string() } else { ls.decreases.clone() };
+        self.insert_open(xs, "{ let __it = &".to_string());
+        self.replace_range(xe, ps, "; let __p = ".to_string(), "R13-filter-count");
+        self.replace_range(pe, end, format!(
+            "; let mut __n: usize = 0; let mut __i: usize = 0; while __i < __it.len(){} decreases {}, {{ {} if __p(&&__it[__i]) {{ __n += 1; }} __i += 1; }} {} __n }}",
+            inv, dec, ls.body_prologue, ls.after), "R13-filter-count");
+        self.visit_expr(x);
+        self.visit_expr(&fl.args[0]);
+        true
+    }
+
+    /// R13: `X.iter().filter(|_| BODY)` (a lazy adaptor whose closure mutates a captured counter, consumed once and
+    /// entirely by the `quote!` repetition that follows) -> the references it yields, collected eagerly by the loop
+    /// `for i in 0..X.len() { if BODY { v.push(&X[i]) } }` with BODY inlined verbatim.
+    /// DROPPED: laziness (BODY runs at the `let`, not inside the repetition; nothing runs in between).
+    fn try_filter_collect(&mut self, mc: &syn::ExprMethodCall) -> bool {
+        let it = match &*mc.receiver { syn::Expr::MethodCall(m) if m.method == "iter" && m.args.is_empty() => m, _ => return false };
+        let cl = match &mc.args[0] { syn::Expr::Closure(c) => c, _ => return false };
+        if cl.inputs.len() != 1 || !matches!(cl.inputs[0], syn::Pat::Wild(_)) {
+            return false;
+        }
+        let k = self.iter_chain_idx;
+        let ls = match self.spec.iter_loops.get(&k.to_string()).cloned() {
+            Some(l) => l,
+            None => return false,
+        };
+        self.iter_chain_idx += 1;
+        // the closure disappears from the output but keeps its ordinal (R7 contracts are keyed by source order)
+        self.closure_idx += 1;
+        let x = &*it.receiver;
+        let (xs, xe) = br(x.span());
+        let (bs, be) = br(cl.body.span());
+        let (_, end) = br(mc.span());
+        let mut inv = String::new();
+        if !ls.invariant.is_empty() {
+            inv.push_str(&format!(" invariant {},", ls.invariant.join(", ")));
+        }
+        let dec = if ls.decreases.is_empty() { "__it.len() - __i".to_string() } else { ls.decreases.clone() };
+        self.insert_open(xs, "{ let __it = ".to_string());
+        self.replace_range(xe, bs, format!(
+            "; let mut __v = Vec::new(); let mut __i: usize = 0; while __i < __it.len(){} decreases {}, {{ {} let __keep = ",
+            inv, dec, ls.body_prologue), "R13-filter-collect");
+        self.replace_range(be, end, format!("; if __keep {{ __v.push(&__it[__i]); }} __i += 1; }} {} __v }}", ls.after), "R13-filter-collect");
+        self.visit_expr(x);
+        self.visit_expr(&cl.body);
         true
     }
 
@@ -869,6 +944,32 @@ impl<'a, 'ast> Visit<'ast> for Rw<'a> {
                                 self.text(inner.span()),
                                 name
                             ));
+                            head.push_str(&format!("{}: {}", name, cs.params[i]));
+                        }
+                        syn::Pat::Reference(_) => {
+                            // R5: `&&x` (reference patterns are not supported by Verus) -> `let x = **param;`
+                            let name = format!("__c{}p{}", k, i);
+                            let mut depth = 0;
+                            let mut cur = inner;
+                            while let syn::Pat::Reference(r) = cur {
+                                if r.mutability.is_some() {
+                                    self.errors.push("R5: `&mut` closure parameter pattern".to_string());
+                                }
+                                depth += 1;
+                                cur = &*r.pat;
+                            }
+                            match cur {
+                                syn::Pat::Ident(pi) if pi.subpat.is_none() && pi.by_ref.is_none() => {
+                                    prologue.push_str(&format!("let {} = {}{}; ", pi.ident, "*".repeat(depth), name));
+                                    self.log.push(Rewrite {
+                                        rule: "R5-ref-pattern".to_string(),
+                                        item: self.item.clone(),
+                                        orig: self.text(inner.span()).to_string(),
+                                        repl: format!("{}: _; let {} = {}{}", name, pi.ident, "*".repeat(depth), name),
+                                    });
+                                }
+                                _ => self.errors.push("R5: unsupported reference pattern in closure parameter".to_string()),
+                            }
                             head.push_str(&format!("{}: {}", name, cs.params[i]));
                         }
                         _ => self.errors.push(format!(
